@@ -192,4 +192,6 @@ _base_scn_s = scenarios
 
 
 def scenarios(tier='quick'):
-    return _base_scn_s(tier) + [derive_twice('Iterated', 'SHA256', 'AES256'), derive_twice('Salted', 'SHA1', 'CAST5')]
+    # salted (not iterated) specifiers: the stream is salt || passphrase once, so these obligations stay in linear sequence reasoning
+    # (an iterated variant needed the repetition law and took ~60 s; what it adds over the salted one is covered by the single-call scenarios)
+    return _base_scn_s(tier) + [derive_twice('Salted', 'SHA1', 'CAST5'), derive_twice('Salted', 'MD5', 'AES256')]
